@@ -19,9 +19,12 @@ RULE = ("every checked entry point of Vector, Matrix, Banded, Tridiagonal, Spars
         "`payload-zero` = every entry that has a payload (value written, second operand, right-hand side, triplet value: 46 entries) on its full tuple "
         "domain again with the payload all zeros; `history-receiver` = Index / IndexMut of a Banded after resize to other bandwidths (IndexMut with a frame "
         "check: code 6), of a Tridiagonal after resize, get/set_row/col of a Matrix after transpose_in_place / delete_row / resize, exhaustive over their "
-        "domains; `quadrature-var` = the variable index of the three trapezium functions; `owned-vs-borrowed-inexact` = every owned / assign / "
-        "scalar-left form against the borrowed form on operands whose sums and products are inexact in f64 (the other builders are small dyadic numbers); "
-        "`same-object` = `&a op &a` against `&a op &a.clone()` (value or panic) for Vector, Matrix (square and not), Banded, Polynomial; `clone-every-mutator` = "
+        "domains; `quadrature-var` = the variable index of the three trapezium functions; `owned-vs-borrowed-inexact` = on operands whose sums and products are inexact in f64 (the other builders are small dyadic numbers) "
+        "every consuming form against its by-reference counterpart (op(a.clone(), b.clone()) against op(&a, &b), `x op= c` against `x op= &c`: bit-identical, "
+        "C20's \"identical results\") and every assign / scalar-left / method form against the binary operator (same outcome class -- value or panic --, values "
+        "within rounding: 1e-12 of the largest entry; C20 does not state these to be bitwise equal, a `/=` through the reciprocal is allowed); "
+        "`same-object` = `&a op &a` against `&a op &a.clone()` for Vector, Matrix (square and not), Banded, Polynomial: outcome class exactly, value bit-identical on "
+        "the dyadic builders (every operation exact) and within rounding (1e-12 of the largest entry) on the inexact ones; `clone-every-mutator` = "
         "the clone is a bit-for-bit copy when taken and independent under every public mutator of the five Clone types, clone first and original first") % (len(guardtable.ENTRIES), CHUNK)
 TRUSTED = ["Coq 8.16.1 kernel + vm_compute (lia/ZifyBool proofs are kernel-checked terms)",
            "driver/translate.py: regular-expression/recursive-descent translator from `if cond { panic!(..) }` guards to Gallina booleans over Z",
@@ -48,8 +51,8 @@ MANIFEST = dict(
           "panic-vs-value with the regenerated guard evaluated in Coq and with an independent python predicate; the executor also detects writes "
           "that happen before a panic, mutation of by-reference operands, owned/borrowed disagreement and clone interference. The same tuples run again "
           "with all-zero payloads (a zero fast path must not skip a guard); checked accessors also run on receivers produced by resize / transpose / delete_row "
-          "(the guard must read the state the history left), and the owned, assign and scalar-left forms are compared with the borrowed forms on operands with "
-          "inexact sums and products as well."),
+          "(the guard must read the state the history left), and on operands with inexact sums and products the consuming forms are compared bit for bit with "
+          "their by-reference counterparts, the assign / scalar-left / method forms with the binary operators up to rounding (outcome class exactly)."),
     note=("Guards are extracted by a regular-expression/recursive-descent translator (trusted; a guard it cannot classify is reported as a broken tie). "
           "Operand non-mutation / clone independence are observed at run time over the enumerated domain (a value model satisfies them by construction). Frame properties of the dense-matrix setters are theorems of C03."),
     technique="Coq proof (lia over Z) about guards regenerated from the source by a translator + exhaustive small-scope differential execution",
@@ -183,6 +186,16 @@ CODE = {2: "panicked only AFTER writing to the receiver (storage modified before
         4: "returned, but the owned and the borrowed form of the operation disagree",
         5: "the by-reference form panicked but the consuming (owned) form of the same operation accepted the operands and returned a value",
         6: "returned, but the write landed in (or also changed) the storage of another element"}
+# the form comparisons (own / own2 / self kinds only).  Bit identity (code 4) is demanded of op(a.clone(), b.clone()) against op(&a, &b)
+# and of `x op= &c` against `x op= c` -- "their consuming counterparts return identical results" -- and of everything on the dyadic
+# builders (all sums and products exact).  Assign forms against binary forms, scalar-left forms, methods against operators and the same
+# object on both sides, on inexact data: same outcome class (9) and values within rounding (8) -- C20 states nothing bitwise about them.
+FORM_CODE = dict(CODE)
+FORM_CODE.update({8: "the assign / scalar-left / method form (or, for a polynomial, `&p * &p` with the same object on both sides) differs from the binary form beyond rounding (an entry off by more than 1e-12 of the largest entry, or another shape)",
+                  9: "one form of the operation panicked where the other form, given equal operands, returned a value"})
+SELF_CODE = {4: "a by-reference operator given the SAME object on both sides does not do what it does for an equal, distinct operand (exactly representable data: every sum and product is exact, the results must be bit-identical)",
+             8: "a by-reference operator given the SAME object on both sides differs beyond rounding (more than 1e-12 of the largest entry, or another shape) from what it returns for an equal, distinct operand",
+             9: "a by-reference operator given the SAME object on both sides panics where an equal, distinct operand is accepted (or the reverse)"}
 
 def oracle(case, items):
     m = case.meta
@@ -194,9 +207,9 @@ def oracle(case, items):
     if "own" in m:
         for k, it in enumerate(items):
             if it != ('i', 0):
-                if m.get("same_object") and it == ('i', 4):
-                    return "%s of size index %d: a by-reference operator given the SAME object on both sides does not do what it does for an equal, distinct operand" % (m["own"], k)
-                return "%s%s of size index %d: %s" % (m["own"], " (operands with inexact sums/products)" if m.get("inexact") else "", k, CODE.get(it[1], "unexpected answer %r" % (it,)) if it[0] == 'i' else "unexpected answer %r" % (it,))
+                if m.get("same_object") and it[0] == 'i' and it[1] in SELF_CODE:
+                    return "%s of size index %d: %s" % (m["own"], k, SELF_CODE[it[1]])
+                return "%s%s of size index %d: %s" % (m["own"], " (operands with inexact sums/products)" if m.get("inexact") else "", k, FORM_CODE.get(it[1], "unexpected answer %r" % (it,)) if it[0] == 'i' else "unexpected answer %r" % (it,))
         return None
     ent = BYKEY[m["key"]]
     if len(items) != len(m["tuples"]):
@@ -214,6 +227,8 @@ def oracle(case, items):
             return "entry %s (%s): conformable / in-range call panicked" % (m["key"], args)
         if not ok and c == 0:
             return "entry %s (%s): mismatched / out-of-range call returned a value instead of panicking" % (m["key"], args)
+        if c not in (0, 1):
+            return "entry %s (%s): unexpected answer code %r" % (m["key"], args, c)
     return None
 
 def extra_coverage():
